@@ -52,7 +52,7 @@ ClientToBroker == {"CreateObject", "DestroyObject", "CreateService", "CreateServ
   "StopBusListener", "RegisterIntrospection", "QueryIntrospection", "QueryIntrospectionReply"}
 
 \* kinds of broker output the observer accounts for exactly (everything else is unconstrained)
-CheckedKinds == {"CreateObjectReply", "DestroyObjectReply", "CreateServiceReply", "DestroyServiceReply",
+CheckedKinds == {"QueryIntrospection", "QueryIntrospectionReply", "CreateObjectReply", "DestroyObjectReply", "CreateServiceReply", "DestroyServiceReply",
   "CallFunction", "CallFunction2", "CallFunctionReply", "AbortFunctionCall", "SubscribeEventReply",
   "SubscribeEvent", "UnsubscribeEvent", "EmitEvent", "SubscribeServiceReply", "SubscribeAllEventsReply",
   "UnsubscribeAllEventsReply", "SubscribeAllEvents", "UnsubscribeAllEvents", "ServiceDestroyed",
@@ -105,6 +105,9 @@ Proj(o) ==
     [] k \in {"ChannelEndClaimed", "ChannelEndClosed"} -> <<c, m.cookie, m.end>>
     [] k = "EmitBusEvent" -> <<c, m.lc, m.be, m.ouuid, m.ocookie, m.suuid, m.scookie>>
     [] k = "BusListenerCurrentFinished" -> <<c, m.cookie>>
+    \* (the payload of an introspection answer may be re-encoded for the asker: not compared)
+    [] k = "QueryIntrospectionReply" -> <<c, m.serial, m.res>>
+    [] k = "QueryIntrospection" -> <<c, m.serial, m.tid>>
     [] OTHER -> <<c>>
 
 \* ---------------------------------------------------------------------------------------------
@@ -126,6 +129,10 @@ ObsInit ==
     ssub |-> {},            \* <<conn, svc>>
     chans |-> EmptyFn,      \* channel cookie -> [snd, rcv : [st, owner], sc, rc : U32]
     lsts |-> EmptyFn,       \* listener cookie -> [owner, filters, scope]
+    ireg |-> {},            \* introspection: <<type id, connection>> that registered the type (and has not declined it)
+    icache |-> EmptyFn,     \* introspection: type id -> TRUE once a queried connection has answered Ok
+    iq |-> EmptyFn,         \* introspection: type id -> [conn, bs]: the query the broker has outstanding
+    iask |-> {},            \* introspection: <<type id, connection, serial>> waiting for an answer
     sdi |-> FALSE, sdb |-> FALSE, stopped |-> FALSE,
     inp |-> NoInp, outs |-> <<>>, rems |-> <<>> ]
 
@@ -480,6 +487,55 @@ FxStopListener(S, c, m, outs) ==
               !.s = [S EXCEPT !.lsts = Put(@, m.cookie, [l EXCEPT !.scope = "None"])]]
 
 \* --- dispatch of a client message ---
+\* --- introspection (C11: a type's description comes from a connection that registered it and was
+\*     asked; nobody else's word is taken; askers are answered once) ---
+FxIntroQuery(S, c, m) ==
+  IF m.tid \in DOMAIN S.icache
+    THEN [NoFx(S) EXCEPT !.req = {<<"QueryIntrospectionReply", <<c, m.serial, "Ok">>>>}]
+    \* otherwise the asker waits; IntroSettle decides what must happen (forward, or "unavailable")
+    ELSE [NoFx(S) EXCEPT !.s = [S EXCEPT !.iask = @ \cup {<<m.tid, c, m.serial>>}]]
+
+FxIntroReply(S, c, m) ==
+  LET T == {t \in DOMAIN S.iq : S.iq[t].conn = c /\ S.iq[t].bs = m.serial} IN
+  IF T = {} THEN [NoFx(S) EXCEPT !.just = {c}]      \* nobody asked this connection: no effect on anyone else; it may be closed
+  ELSE LET t == CHOOSE t \in T : TRUE
+           askers == {a \in S.iask : a[1] = t} IN
+       IF m.res = "Ok"
+         THEN [NoFx(S) EXCEPT !.s = [S EXCEPT !.icache = Put(@, t, TRUE), !.iq = Del(@, {t}), !.iask = @ \ askers],
+                              !.req = {<<"QueryIntrospectionReply", <<a[2], a[3], "Ok">>>> : a \in askers}]
+         \* the connection declines: it is no longer asked for this type (nor answered, if it was asking itself)
+         ELSE [NoFx(S) EXCEPT !.s = [S EXCEPT !.ireg = @ \ {<<t, c>>}, !.iq = Del(@, {t}),
+                                              !.iask = @ \ {a \in askers : a[2] = c}]]
+
+\* After the removals of a macro-step: every waiting asker either still has a query outstanding at a
+\* live connection that registered the type, or a new query goes to such a connection now, or -- if
+\* there is none left -- is told "unavailable".  Which connection is asked is the broker's choice and
+\* is read from the outputs.
+IntroSettle(S, Rem, outs, strict, prevIq) ==
+  LET reg == {p \in S.ireg : p[2] \notin Rem}
+      ask == {a \in S.iask : a[2] \notin Rem}
+      iq1 == [t \in {t \in DOMAIN S.iq : S.iq[t].conn \notin Rem} |-> S.iq[t]]
+      cand(t) == {p[2] : p \in {p \in reg : p[1] = t}}
+      cache == [t \in {t \in DOMAIN S.icache : cand(t) # {}} |-> TRUE]
+      need == {a[1] : a \in ask} \ (DOMAIN cache \cup DOMAIN iq1)
+      \* (a connection whose task was dropped is still asked: the broker cannot know)
+      F(t) == {i \in 1..Len(outs) : outs[i].m.k = "QueryIntrospection" /\ outs[i].m.tid = t /\ outs[i].c \in cand(t)}
+      fwd == {t \in need : cand(t) # {}}
+      unav == {t \in need : cand(t) = {}}
+      lost == {t \in fwd : F(t) = {}}
+      \* a query that ended in this step without an answer (its connection went away or declined) is
+      \* started again by the broker even if nobody is waiting any more: allowed, not required
+      lostNow == {outs[i].m.tid : i \in {i \in 1..Len(outs) : outs[i].m.k = "QueryIntrospection" /\ outs[i].c \in Rem}}
+      again == {t \in (prevIq \cup lostNow) \ (DOMAIN iq1 \cup DOMAIN cache \cup need) : F(t) # {}}
+      iq2 == [t \in DOMAIN iq1 \cup (fwd \ lost) \cup again |->
+                IF t \in DOMAIN iq1 THEN iq1[t] ELSE [conn |-> outs[SetMax(F(t))].c, bs |-> outs[SetMax(F(t))].m.serial]]
+      req == {<<"QueryIntrospection", <<iq2[t].conn, iq2[t].bs, t>>>> : t \in fwd \ lost}
+             \cup {<<"QueryIntrospectionReply", <<a[2], a[3], "Unavailable">>>> : a \in {a \in ask : a[1] \in unav}}
+  IN [s |-> [S EXCEPT !.ireg = reg, !.icache = cache, !.iq = iq2, !.iask = {a \in ask : a[1] \notin unav}],
+      req |-> req,
+      opt |-> {<<"QueryIntrospection", <<iq2[t].conn, iq2[t].bs, t>>>> : t \in again},
+      bad |-> IF lost # {} THEN "a query for a type that a live connection has registered was neither forwarded nor answered" ELSE ""]
+
 FxMsg(S, c, m, outs, dumpChans) ==
   LET k == m.k IN
   IF c \notin DOMAIN S.conns THEN NoFx(S)                      \* message of a connection that is already gone
@@ -513,8 +569,11 @@ FxMsg(S, c, m, outs, dumpChans) ==
          [] k \in {"AddBusListenerFilter", "RemoveBusListenerFilter", "ClearBusListenerFilters"} -> FxFilter(S, c, m)
          [] k = "StartBusListener" -> FxStartListener(S, c, m, outs)
          [] k = "StopBusListener" -> FxStopListener(S, c, m, outs)
-         [] k = "RegisterIntrospection" -> IF m.ok THEN NoFx(S) ELSE [NoFx(S) EXCEPT !.just = {c}]
-         [] k = "QueryIntrospectionReply" -> [NoFx(S) EXCEPT !.just = {c}]     \* unsolicited replies may close the sender
+         [] k = "RegisterIntrospection" ->
+              IF m.ok THEN [NoFx(S) EXCEPT !.s = [S EXCEPT !.ireg = @ \cup {<<m.tids[i], c>> : i \in 1..Len(m.tids)}]]
+              ELSE [NoFx(S) EXCEPT !.just = {c}]
+         [] k = "QueryIntrospection" -> FxIntroQuery(S, c, m)
+         [] k = "QueryIntrospectionReply" -> FxIntroReply(S, c, m)
          [] OTHER -> NoFx(S)
 
 FxInput(S, inp, outs, dumpChans) ==
@@ -618,7 +677,8 @@ CheckOuts(S, outs, strict, req0, opt0, sender) ==
       optS == {e \in opt : e[2][1] \in strict}
       cnt(e) == Cardinality({i \in 1..Len(P) : P[i] = e})
       missing == {e \in reqS : cnt(e) = 0}
-      dupl == {e \in reqS \cup optS : cnt(e) > 1}
+      \* (a connection may ask twice for the same type under the same serial; it is then answered twice)
+      dupl == {e \in reqS \cup optS : cnt(e) > 1 /\ e[1] # "QueryIntrospectionReply"}
       extra == {i \in 1..Len(P) : P[i] \notin reqS /\ P[i] \notin optS}
       \* who is affected: the sender of the input itself, or another connection (C11 cares about the latter)
       whom(c) == IF c = sender THEN " (to the sender of the request)" ELSE " (to another connection)"
@@ -702,21 +762,24 @@ Judge(S, st) ==
       failed == {outs[i].c : i \in {i \in 1..Len(outs) : ~outs[i].ok}}
       unjust == Rem \ (fx.just \cup failed)
       casc == Cascade(S1, Rem, fx.dObjs, fx.dSvcs)
-      S2 == casc.s
-      survivors == DOMAIN S2.conns
+      S2c == casc.s
+      survivors == DOMAIN S2c.conns
       strict == survivors \ (S.dead \cup failed)
+      intro == IntroSettle(S2c, Rem, outs, strict, DOMAIN S.iq)
+      S2 == intro.s
       created == CreatedEvents(S, S1)
       trans == Transitions(S, S2, survivors)
       \* notifications caused by a sender that does not survive the step are optional
       senderGone == inp.t = "msg" /\ inp.c \notin strict
-      req == fx.req \cup casc.req \cup (IF senderGone THEN {} ELSE created \cup trans)
-      opt == fx.opt \cup casc.opt \cup (IF senderGone THEN created \cup trans ELSE {})
+      req == fx.req \cup casc.req \cup intro.req \cup (IF senderGone THEN {} ELSE created \cup trans)
+      opt == fx.opt \cup casc.opt \cup intro.opt \cup (IF senderGone THEN created \cup trans ELSE {})
       \* events about entities whose acknowledgement was never delivered are not accounted
       ghostOut(o) == o.m.k = "EmitBusEvent" /\ (o.m.ocookie \in S1.ghosts \/ o.m.scookie \in S1.ghosts)
       outsA == SelectSeq(outs, LAMBDA o : ~ghostOut(o))
       vers == [x \in DOMAIN S.conns \cup DOMAIN S1.conns |-> IF x \in DOMAIN S1.conns THEN S1.conns[x] ELSE S.conns[x]]
       T1 == IF ~S1.ok THEN S1
             ELSE IF unjust # {} THEN Bad(S2, "C11", "a connection was closed without cause")
+            ELSE IF intro.bad # "" THEN Bad(S2, "C11", intro.bad)
             ELSE IF ~(fx.must \subseteq Rem) THEN
                    Bad(S2, IF inp.t = "msg" THEN "C12" ELSE "C09", "a connection that had to be closed is still registered")
             ELSE S2
